@@ -134,19 +134,23 @@ def collect() -> dict[str, Any]:
 		raise TranslateError('on_spread has another shape than the modelled one (onSpread):\n' + body_text(osp))
 	# handlers of ProceduralResolver
 	handlers: list[tuple[str, list[int]]] = []
+	names: list[str] = []
 	for c in refl.body:
 		if isinstance(c, ast.ClassDef) and c.name == 'ProceduralResolver':
 			for m in c.body:
 				if isinstance(m, ast.FunctionDef) and m.name.startswith('on_'):
+					names.append(m.name)
 					ix = attr_indexes(m)
 					if ix:
 						handlers.append((m.name, ix))
+	if len(set(names)) != len(names):
+		raise TranslateError('ProceduralResolver: a handler is defined twice')
 	if not handlers:
 		raise TranslateError('ProceduralResolver: no handler indexes `attrs`')
 	it = attr_indexes(method_of(traits, 'IteratorTrait', 'iterates'))
 	if len(it) != 1:
 		raise TranslateError(f'IteratorTrait.iterates: expected one constant index of attrs, found {it}')
-	return {'arith': arith, 'select': select, 'handlers': handlers, 'iterates': it[0]}
+	return {'arith': arith, 'select': select, 'handlers': handlers, 'iterates': it[0], 'names': names}
 
 
 def render(t: dict[str, Any]) -> str:
@@ -179,6 +183,11 @@ def render(t: dict[str, Any]) -> str:
 		',\n'.join(f"  ({lstr(h)}, [{', '.join(str(k) if k >= 0 else f'({k})' for k in ix)}])" for h, ix in t['handlers']),
 		']',
 		'',
+		'/-- every handler `on_…` of ProceduralResolver, in source order -/',
+		'def handlers : List Tranp.Str := [',
+		',\n'.join(f'  {lstr(h)}' for h in t['names']),
+		']',
+		'',
 		'/-- `IteratorTrait.iterates`: the item type of `Iterator<T>` is `attrs[…]` -/',
 		f"def iteratesIndex : Int := {t['iterates']}",
 		'',
@@ -195,7 +204,8 @@ def generate() -> list[dict[str, Any]]:
 	return [{
 		'file': 'lean/Tranp/Generated/InferShape.lean',
 		'source': [ACCESSIBLE, TRAITS, REFLECTIONS],
-		'entries': len(t['arith']) + len(t['select']) + sum(len(ix) for _, ix in t['handlers']) + 3,
+		'entries': len(t['arith']) + len(t['select']) + sum(len(ix) for _, ix in t['handlers']) + 3 + len(t['names']),
 		'handlers': {h: ix for h, ix in t['handlers']},
+		'handler_names': len(t['names']),
 		'changed': changed,
 	}]
